@@ -340,6 +340,13 @@ func (e *Engine) opFReg(c *cursor) *Violation {
 		}
 	}
 	op := &COp{Kind: "freg", Variant: "Register", Slot: slot, Rel: -1}
+	if st := c.n(320); st < 40 {
+		op.Variant, op.Count = "RegisterStorm", 1+st*8
+		if st == 0 {
+			op.Count = 1<<16 + 2 // more registrations in one world's life than 16 bits count
+		}
+		e.St.Probes["register-storm"]++
+	}
 	_, ok, v := e.issue(op, "")
 	if v != nil {
 		if v.Class == "unexpected-panic" {
@@ -479,7 +486,7 @@ func (e *Engine) fillToLimit(c *cursor) *Violation {
 					msg = fmt.Sprint(r)
 				}
 			}()
-			ecs.TypeID(s.W, FillerType(s.nextFill))
+			registerFiller(s.W, s.nextFill)
 		}()
 		if msg != "" {
 			return e.viol("registry", nil, "registering type number %d (limit %d) panicked: %s", n+1, ecs.MaskTotalBits, msg)
@@ -489,7 +496,7 @@ func (e *Engine) fillToLimit(c *cursor) *Violation {
 		n++
 		for _, sh := range e.Shadows {
 			if sh.Kind == "fresh" {
-				ecs.TypeID(sh.S.W, FillerType(sh.S.nextFill))
+				registerFiller(sh.S.W, sh.S.nextFill)
 				sh.S.regOrder = append(sh.S.regOrder, -1-sh.S.nextFill)
 				sh.S.nextFill++
 			}
@@ -508,7 +515,7 @@ func (e *Engine) fillToLimit(c *cursor) *Violation {
 				refused = true
 			}
 		}()
-		ecs.TypeID(s.W, FillerType(100000+s.nextFill))
+		registerFiller(s.W, 100000+s.nextFill)
 	}()
 	if !refused {
 		return e.viol("type-limit", nil, "component type number %d was registered (limit %d)", ecs.MaskTotalBits+1, ecs.MaskTotalBits)
